@@ -2641,3 +2641,61 @@ func c01r24(rc *core.RC) {
 		rc.Unknown("encoder/compiler.go/marshaler-switches", token.NoPos, "found %d switches that ask for both marshal interfaces, fewer than the 4 confirmed by hand", n)
 	}
 }
+
+// ---- C01.R25 the string option looks through one pointer, in the encoder as in encoding/json ----
+
+// encoding/json applies the string option to a field whose type, after one unnamed pointer is taken off, is a
+// scalar or a string: *int is quoted, **int is written as it is. The encoder chooses the quoting variants of the
+// member operations in optimizeStructHeader / optimizeStructField (ToHeaderType, ToFieldType), where a pointer
+// operation stands for a chain of any depth (Opcode.PtrNum). Obligation: the flag those two conversions are called
+// with is not the tag's IsString alone: it is joined with a test of the pointer depth (directly, or in the one-line
+// helper the call names).
+func c01r25(rc *core.RC) {
+	p := rc.P
+	pk := p.Pkg("encoder")
+	if pk == nil {
+		return
+	}
+	info := pk.TypesInfo
+	n := 0
+	for _, fd := range p.Funcs("encoder") {
+		if fd.Body == nil {
+			continue
+		}
+		k := 0
+		ast.Inspect(fd.Body, func(m ast.Node) bool {
+			call, ok := m.(*ast.CallExpr)
+			if !ok || len(call.Args) != 1 {
+				return true
+			}
+			cn := core.CalleeName(info, call)
+			if !strings.HasSuffix(cn, "Opcode.ToHeaderType") && !strings.HasSuffix(cn, "Opcode.ToFieldType") {
+				return true
+			}
+			n++
+			k++
+			rc.Touch(p.FuncName(fd))
+			key := fmt.Sprintf("%s/%s#%d string-option-looks-through-one-pointer", p.FuncName(fd), cn[strings.LastIndex(cn, ".")+1:], k)
+			var cond ast.Node = call.Args[0]
+			if c2, isCall := core.Unparen(call.Args[0]).(*ast.CallExpr); isCall {
+				if f := core.Callee(info, c2); f != nil && f.Pkg() == pk.Types {
+					if hd := p.DeclOf(f); hd != nil && hd.Body != nil {
+						cond = hd.Body
+					}
+				}
+			}
+			depth := false
+			ast.Inspect(cond, func(q ast.Node) bool {
+				if sel, isSel := q.(*ast.SelectorExpr); isSel && sel.Sel.Name == "PtrNum" {
+					depth = true
+				}
+				return true
+			})
+			rc.Check(depth, key, call.Pos(), "the flag that chooses the quoting variant of the member operation is the tag's string option joined with a test of the pointer depth: a pointer operation stands for a chain of any depth, and encoding/json quotes *int and writes **int as it is")
+			return true
+		})
+	}
+	if n < 2 {
+		rc.Unknown("encoder/ToHeaderType-ToFieldType-calls", token.NoPos, "found %d calls of ToHeaderType / ToFieldType, fewer than the 2 confirmed by hand", n)
+	}
+}
